@@ -7,11 +7,9 @@ import CprocVerif.Lemmas.InitRefSim2
 namespace CprocVerif.InitSim
 open CprocVerif.Init CprocVerif.Image CprocVerif.InitRef
 
-theorem okI_list {its : Items} (h : okI (.list its) = true) : okIs its = true := by
-  simpa only [okI] using h
-
 theorem pInit_step (f : Nat) (ih : ∀ f', f' < f → PAll f') : PInit f := by
-  intro pl ini rest rst rest' rst' hr hn hw hoi hor st st1 stf pf c hcur hcs hp hco hic hsp hle hb hrun
+  intro pl ini rest rst rest' rst' hr hn hw st st1 stf pf c hcur hcs hco hic hsp hle hb hrun
+  have hp : Flat st st.sub := flat_pos st (by omega)
   cases f with
   | zero => rw [initOne.eq_1] at hr; cases hr
   | succ f =>
@@ -24,7 +22,7 @@ theorem pInit_step (f : Nat) (ih : ∀ f', f' < f → PAll f') : PInit f := by
     rw [hbr] at hr
     cases hr
     obtain ⟨hbs, hbc, hbo, hbt, hbi⟩ := braceClear_fields st
-    have hbp : Plain (braceClear st) := ⟨by rw [hbi]; exact hp.inc, by rw [hbt, hbo]; exact hp.top⟩
+    have hbp : Flat (braceClear st) (braceClear st).sub := flat_pos _ (by rw [hbs]; omega)
     have hlb := braceClear_logEq hcur hp hw hsp.ty hsp.off hle
     have hfr : Frame st.sub st (braceClear st) := ⟨hbc, hbt, hbi, fun j _ => by rw [hbo]⟩
     cases its with
@@ -41,7 +39,7 @@ theorem pInit_step (f : Nat) (ih : ∀ f', f' < f → PAll f') : PInit f := by
       simp only [] at hb'
       rw [hbp.tinc] at hb'
       cases hb'
-      refine ⟨_, hrun, ⟨hfr, by rw [hbs]; exact Nat.le_refl _, hbp, ?_, by rw [hbo], by rw [hbo], ?_⟩, ?_⟩
+      refine ⟨_, hrun, ⟨hfr, by rw [hbs]; exact Nat.le_refl _, ?_, by rw [hbo], by rw [hbo], ?_⟩, ?_⟩
       · exact curOK_frame hco hfr rfl hbs (fun c' hc' => by rw [hcur] at hc'; cases hc'; exact hcs)
       · intro _ j h1 h2; rw [hbs] at h2; omega
       · unfold LogEq
@@ -52,7 +50,6 @@ theorem pInit_step (f : Nat) (ih : ∀ f', f' < f → PAll f') : PInit f := by
           have hs' : isScalarTy pl.ty = false := by simpa using hs
           rw [hs'] at hlb; exact hlb
     | cons ds1 i1 r1 =>
-      have hois := okI_list hoi
       have hb' : (match entered (braceClear st) with
           | .error er => (.error er : Except Err St)
           | .ok st2 => listBody st2 (.cons ds1 i1 r1)) = .ok st1 := hb
@@ -67,14 +64,14 @@ theorem pInit_step (f : Nat) (ih : ∀ f', f' < f → PAll f') : PInit f := by
         have := hsp.bits
         rw [← this]
         exact curBits_congr rfl (fun _ => by show (braceClear st).obj _ = st.obj _; rw [hbo])
-      obtain ⟨r1', r2, r3, r4, r5, r6⟩ := (ih f (Nat.lt_succ_self f)).2.2.1 pl _ rst rst' hbr hn hw hois
+      obtain ⟨r1', r2, r3, r5, r6⟩ := (ih f (Nat.lt_succ_self f)).2.2.1 pl _ rst rst' hbr hn hw
         (by intro h; cases h) (braceClear st) st1
         (fun c' hc' => by rw [hbc, hcur] at hc'; cases hc'; rw [hbs]; exact hcs) hbp
         (curOK_frame hco hfr rfl hbs (fun c' hc' => by rw [hcur] at hc'; cases hc'; exact hcs))
         (by rw [hbs, hbo]; exact hic) hsp' hlb hb'
       rw [hbs] at r2 r3 r5 r6
       have hfr' : Frame st.sub st st1 := hfr.trans r2 (Nat.le_refl _)
-      refine ⟨_, hrun, ⟨hfr', by rw [r3]; exact Nat.le_refl _, r4, ?_, by rw [r5, hbo], by rw [r6, hbo], ?_⟩, r1'⟩
+      refine ⟨_, hrun, ⟨hfr', by rw [r3]; exact Nat.le_refl _, ?_, by rw [r5, hbo], by rw [r6, hbo], ?_⟩, r1'⟩
       · exact curOK_frame hco hfr' rfl r3 (fun c' hc' => by rw [hcur] at hc'; cases hc'; exact hcs)
       · intro _ j h1 h2; rw [r3] at h2; omega
   | expr e =>
@@ -100,7 +97,7 @@ theorem pInit_step (f : Nat) (ih : ∀ f', f' < f → PAll f') : PInit f := by
         simp only [hw.unb, Bool.false_eq_true, if_false] at hr
         cases hr
         have hh : hit st (.str w scls cs) = .ok (.add (.str w cs), st) := by
-          rw [hit_str hty' (hp.tinc _), if_neg hbad]
+          rw [hit_str hty' hp.tinc, if_neg hbad]
         obtain ⟨h1, h2⟩ := leaf_add (rest := rest) (sz := n * es) hh hsp hp hco (by rw [hty']; first | rfl | skip) hle hb'
         have hbits := hw.bits (by rw [hty]; rfl)
         rw [hbits.1, hbits.2] at h2
@@ -152,19 +149,16 @@ theorem pInit_step (f : Nat) (ih : ∀ f', f' < f → PAll f') : PInit f := by
       rw [hch] at hch2
       cases hch2
       have hwc : PlWf ch := childAt_wf hw hch
-      have hp2 : Plain st2 := hf2.plain' hp (by rw [hl2.ty, hsp.ty])
       have hco2 : CurOK st2 := curOK_step hco hcur (Nat.le_of_lt hcs) (Nat.le_refl _) hf2 hic2 hs2 (fun _ => hic)
-      have hsuf := (suff_all f').1 _ _ _ _ _ hi
-      have hor1 : okIs rest1 = true := okIs_suff hsuf (by simp [okIs, okI, hor])
-      obtain ⟨st3, hrun3, haf3, hle3⟩ := (ih f' (by omega)).1 ch (.expr e) rest _ rest1 rst1 hi e2 hwc rfl hor
-        st2 st1 stf pf' c (by rw [hf2.cur]; exact hcur) (by rw [hs2]; omega) hp2 hco2 (by rw [hs2]; exact hic2')
+      obtain ⟨st3, hrun3, haf3, hle3⟩ := (ih f' (by omega)).1 ch (.expr e) rest _ rest1 rst1 hi e2 hwc
+        st2 st1 stf pf' c (by rw [hf2.cur]; exact hcur) (by rw [hs2]; omega) hco2 (by rw [hs2]; exact hic2')
         (by rw [hs2]; exact hsp2) (by unfold LogEq; rw [hlog2, grow_log, enter_log e1]; exact hle) hb' hrun
       rw [hs2] at haf3
       have hl3 : Lvl st3 st.sub pl 0 ch := hl2.frame haf3.frame (Nat.lt_succ_self _)
-      obtain ⟨st', hrun', haf', hlt', hle'⟩ := (ih f' (by omega)).2.1 pl 0 rest1 rst1 rest' rst' hr e3 hw hor1
+      obtain ⟨st', hrun', haf', hlt', hle'⟩ := (ih f' (by omega)).2.1 pl 0 rest1 rst1 rest' rst' hr e3 hw
         st3 stf st.sub c ch (by rw [haf3.frame.cur, hf2.cur]; exact hcur) hcs (by have := haf3.le; omega)
-        haf3.plain haf3.curok hl3 (fun hh j h1 h2 => haf3.exh hh j (by omega) h2) hle3 hrun3
-      refine ⟨st', hrun', ⟨?_, haf'.le, haf'.plain, haf'.curok, ?_, ?_, haf'.exh⟩, hle'⟩
+        haf3.curok hl3 (fun hh j h1 h2 => haf3.exh hh j (by omega) h2) hle3 hrun3
+      refine ⟨st', hrun', ⟨?_, haf'.le, haf'.curok, ?_, ?_, haf'.exh⟩, hle'⟩
       · exact (hf2.trans (haf3.frame.mono (Nat.le_succ _)) (Nat.le_refl _)).trans haf'.frame (Nat.le_refl _)
       · rw [haf'.ty, hl3.ty, hsp.ty]
       · rw [haf'.off, hl3.off, hsp.off]
